@@ -26,7 +26,7 @@ def run(ctx):
     ctx.assumptions += [
         "signature verification and decoding are parameters (theorems hold for every scheme); in the driver a signature token verifies under exactly the key that made it (ECDSA P-256 in the harness)",
         "the modern rule N-(N-1)/3 is selected only on main net above header height 20,000,000, which no test ledger reaches by submitting blocks: in the quick tier that branch is tied by the translator (both expressions and the needFix condition are regenerated and the theorem m_formula is about them), the legacy branch also by the correspondence on main-net and test-net ids; the thorough tier pre-fills the in-memory header index through a verif hook and verifies real headers under the modern rule",
-        "NETWORK_ID_MAIN_NET = 1 is a constant of the model (config.go); ConsensusPayload JSON decoding is assumed to succeed (the harness builds well-formed payloads)",
+        "NETWORK_ID_MAIN_NET = 1 is a constant of the model (config.go); ConsensusPayload decoding is a boolean of the model, exercised with truncated JSON payloads",
     ]
     if generate(ctx) is None:
         return
